@@ -6,6 +6,7 @@ KINDS = {"MUSIC": "music", "BANNER": "banner", "BACKGROUND": "background", "CDTI
 HITS = {"BANNER": ["banner.png", "My Banner.JPG", "songbn.png", "x bn.gif"], "BACKGROUND": ["background.png", "BG.png", "songbg.jpeg", "Background-1.bmp"],
         "CDTITLE": ["cdtitle.png", "my-CDTitle.gif"], "JACKET": ["jk_song.png", "Jacket.jpg", "albumart.png", "AlbumArtSmall.bmp"],
         "CDIMAGE": ["song-cd.png", "x-CD.jpg"], "MUSIC": ["song.ogg", "Track.MP3", "a.oga", "b.wav"]}
+DUAL = ["jacket-bg.png", "banner-cd.png", "albumart bn.png", "jk_background.png", "cdtitle banner.gif", "jacket cdtitle-cd.jpg", "Background bn.PNG"]
 NEAR = ["bann.png", "bnx.png", "b g.txt", "cdtitl.png", "xjk_.png", "song-cdx.png", "cd.png", "music.og", "ogg", "song.ogg.bak", "jk.png", "readme.txt", ".png"]
 
 
@@ -15,6 +16,8 @@ def rand_dir(rng):
         for n in rng.sample(names, rng.choice([0, 0, 1, 1, 2])):
             d[n] = None
     for n in rng.sample(NEAR, rng.randrange(0, 5)): d[n] = None
+    # names that hit the patterns of two asset kinds at once (each kind's lookup is independent of the others')
+    for n in rng.sample(DUAL, rng.choice([0, 0, 1, 1, 2])): d[n] = None
     if rng.random() < .5:
         d["Sub"] = {n: None for n in rng.sample(["Art.PNG", "bg.png", "tune.ogg", "x.txt"], rng.randrange(1, 4))}
     if rng.random() < .3: d["banner"] = {}      # a directory whose name matches a pattern
